@@ -12,6 +12,8 @@ package main
 
 import (
 	"fmt"
+	"go/token"
+	"go/types"
 	"sort"
 	"strings"
 
@@ -67,9 +69,91 @@ func paddingAutomaton(p *Prog, scan *ssa.Function, hdr *ssa.BasicBlock, isByte f
 		return false
 	}
 	var statePhis []*ssa.Phi
+	// counters: a header phi that starts at 0, only ever grows by a positive constant, and is looked at
+	// only through comparisons with 0 (`ndigits > 0` for "a digit was seen") behaves like the two-valued
+	// state {0, positive}: it is kept as state and saturated at 1 after every step
+	counter := map[*ssa.Phi]bool{}
+	isCounter := func(phi *ssa.Phi) bool {
+		if bt, ok := phi.Type().Underlying().(*types.Basic); !ok || bt.Info()&types.IsInteger == 0 {
+			return false
+		}
+		var incs []ssa.Value
+		zero := false
+		for _, e := range phi.Edges {
+			if k, ok := constInt(e); ok && k == 0 {
+				zero = true
+				continue
+			}
+			srcs := append(phiSources(e), e)
+			for _, src := range srcs {
+				if src == ssa.Value(phi) {
+					continue
+				}
+				if _, isPhi := src.(*ssa.Phi); isPhi {
+					continue
+				}
+				add, ok := src.(*ssa.BinOp)
+				if !ok || add.Op != token.ADD {
+					return false
+				}
+				if k, isK := constInt(add.Y); !isK || k <= 0 {
+					return false
+				}
+				incs = append(incs, add)
+			}
+		}
+		if !zero || len(incs) == 0 {
+			return false
+		}
+		// every other use is a comparison with 0 (or the equivalent with 1)
+		okUse := func(v ssa.Value) bool {
+			for _, r := range referrers(v) {
+				switch u := r.(type) {
+				case *ssa.Phi, *ssa.DebugRef:
+				case *ssa.BinOp:
+					if u.Op == token.ADD {
+						continue
+					}
+					k, isK := constInt(u.Y)
+					if !isK || u.X != v {
+						return false
+					}
+					switch {
+					case k == 0 && (u.Op == token.GTR || u.Op == token.EQL || u.Op == token.NEQ || u.Op == token.LEQ):
+					case k == 1 && (u.Op == token.GEQ || u.Op == token.LSS):
+					default:
+						return false
+					}
+				default:
+					return false
+				}
+			}
+			return true
+		}
+		if !okUse(phi) {
+			return false
+		}
+		for _, a := range incs {
+			if !okUse(a) {
+				return false
+			}
+		}
+		// phis in between (merges inside the loop body, the value after the loop)
+		for _, src := range phiSourcesAll(phi) {
+			if q, isPhi := src.(*ssa.Phi); isPhi && q != phi && !okUse(q) {
+				return false
+			}
+		}
+		return true
+	}
 	for _, in := range hdr.Instrs {
-		if phi, ok := in.(*ssa.Phi); ok && finite(phi, map[ssa.Value]bool{}) {
-			statePhis = append(statePhis, phi)
+		if phi, ok := in.(*ssa.Phi); ok {
+			if finite(phi, map[ssa.Value]bool{}) {
+				statePhis = append(statePhis, phi)
+			} else if isCounter(phi) {
+				statePhis = append(statePhis, phi)
+				counter[phi] = true
+			}
 		}
 	}
 	if len(statePhis) == 0 {
@@ -160,7 +244,11 @@ func paddingAutomaton(p *Prog, scan *ssa.Function, hdr *ssa.BasicBlock, isByte f
 				}
 				next = nil
 				for _, phi := range statePhis {
-					next = append(next, val(phi.Edges[i]))
+					v := val(phi.Edges[i])
+					if counter[phi] && v.kind == cvInt && v.i > 1 {
+						v = cvI(1) // saturated: any positive count is looked at in the same way
+					}
+					next = append(next, v)
 				}
 			}
 			return true
@@ -273,4 +361,25 @@ func paddingAutomaton(p *Prog, scan *ssa.Function, hdr *ssa.BasicBlock, isByte f
 	sort.Strings(res.acceptsBad)
 	sort.Strings(res.rejectsGood)
 	return res, nil
+}
+
+// phiSourcesAll: every value reachable from v through phi edges, the phis themselves included.
+func phiSourcesAll(v ssa.Value) []ssa.Value {
+	seen := map[ssa.Value]bool{}
+	var out []ssa.Value
+	var walk func(x ssa.Value)
+	walk = func(x ssa.Value) {
+		if seen[x] {
+			return
+		}
+		seen[x] = true
+		out = append(out, x)
+		if phi, ok := x.(*ssa.Phi); ok {
+			for _, e := range phi.Edges {
+				walk(e)
+			}
+		}
+	}
+	walk(v)
+	return out
 }
